@@ -164,6 +164,35 @@ def alias_chain_program(core: bool, variant: int) -> G.Program:
     return p
 
 
+def dependency_diamond_program(core: bool, variant: int) -> G.Program:
+    """Definitions of an imported file that are pulled forward (alias of a struct, message used as a struct field) and whose
+    field lists name two not-yet-emitted types of which one CONTAINS the other (SEGMENT {POINT, POINT}, PATH {SEGMENT, POINT};
+    also the other order of mention): whatever order the emission groups are computed in, a definition follows everything it uses."""
+    def F(name, base, n=None):
+        return G.FieldSpec(name, base if n is None else f"{base}[{n}]", base, n, None if n is None else str(n))
+
+    bp = "geo/parts.yaml"
+    path_fields = [F("first", "SEGMENT"), F("origin", "POINT")] if variant == 0 else [F("origin", "POINT"), F("first", "SEGMENT"), F("more", "SEGMENT", 2)]
+    b = G.FileSpec(path=bp, defs=[
+        G.Def(kind="struct", name="POINT", file=bp, fields=[F("x", "double"), F("y", "double")]),
+        G.Def(kind="struct", name="SEGMENT", file=bp, fields=[F("a", "POINT"), F("b", "POINT")]),
+        G.Def(kind="struct", name="PATH", file=bp, fields=path_fields),
+        G.Def(kind="message", name="WAYPOINT", file=bp, id=4420, fields=[F("at", "POINT"), F("leg", "SEGMENT")]),
+        G.Def(kind="message", name="TRACK", file=bp, id=4421, fields=[F("leg", "SEGMENT"), F("wp", "WAYPOINT"), F("p", "POINT")])])
+    rp = "nav.yaml"
+    rdefs = [G.Def(kind="alias", name="ROUTE", file=rp, value="PATH"),
+             G.Def(kind="alias", name="ROUTE2", file=rp, value="ROUTE"),
+             G.Def(kind="struct", name="PLAN", file=rp, fields=[F("t", "TRACK"), F("r", "ROUTE"), F("alt", "ROUTE2", 2)]),
+             G.Def(kind="message", name="GO", file=rp, id=4422, fields=[F("route", "ROUTE"), F("plan", "PLAN"), F("w", "WAYPOINT")])]
+    r = G.FileSpec(path=rp, imports=[["geo/parts.yaml", bp]], defs=rdefs)
+    p = G.Program([b, r], rp, {"auto_pad": True, "validate_alignment": True, "import_coredefs": core}, "chain",
+                  {"covering", "alias-of-alias", "alias-of-imported-struct", "alias-of-imported-struct-field", "struct-contains-message", "dependency-diamond"})
+    probs = p.problems()
+    if probs:
+        raise HarnessError(f"dependency diamond program is ill-formed: {probs[:2]}")
+    return p
+
+
 def eval_const(text, env):
     """Value of a constant's YAML text the way the documentation defines it: earlier constants are replaced by their
     value (as text), the rest is arithmetic."""
@@ -801,7 +830,8 @@ def shard(seed, n, idx, quick):
 
         one(substring_program(idx % 2 == 0), "covering-family")
         one(alias_chain_program(idx % 4 < 2, idx % 2), "covering-family")
-        res.evaluations += 2
+        one(dependency_diamond_program(idx % 4 >= 2, idx % 2), "covering-family")
+        res.evaluations += 3
         # every accepted way of calling a definition like a definition of another namespace (core names with the core imported), and every
         # text of the generator's string vocabulary (a quarter per shard): line breaks, lines that look like YAML, colons glued to text ...
         if idx % 4 < 2:
